@@ -6,7 +6,7 @@ from ..core import sym
 from ..core.expand import u, call_name, get_arg, bind_args, phi_alternatives, is_marker, Expander
 from ..core.loader import Inconclusive, const_value
 from .common import (calls_in, callee, returns, expander, strip_shape, linear_coeffs, guards_of, subscript_stores,
-                     all_nodes, raise_class, role_of, kw, is_true, compare_nf, stmt_of, find_assignments, is_none_test)
+                     all_nodes, raise_class, role_of, kw, is_true, compare_nf, stmt_of, find_assignments, is_none_test, path_stores)
 
 EXPLANATION = (
     "Decided (structure, necessary conditions): D1 the bin index is numpy.floor of one quotient and nothing else "
@@ -406,8 +406,35 @@ def rule_range(ck):
             closed_unguarded = True
     o = ck.ob('C02-D3.mode', f, 'range stores are selected by the open-ended flag', f.node)
     if mode_param != 'right_continuous' and mode_param is None:
-        o.fail('no range store is guarded by the right_continuous parameter')
-        return
+        # one code path whose bounds / replacement values are chosen by the flag: read the stores per path, with the values the path
+        # has bound substituted in
+        synth_closed, synth_open = [], []
+        try:
+            pstores = path_stores(f, var)
+        except Inconclusive:
+            pstores = []
+        for conds, env, sts in pstores:
+            cd = dict(conds)
+            rc_env = const_value(env['right_continuous']) if 'right_continuous' in env else NotImplemented
+            if cd.get('right_continuous') is True or rc_env is True:
+                tgt_list = synth_open
+            elif cd.get('right_continuous') is False:
+                tgt_list = synth_closed
+            else:
+                continue
+            if tgt_list:
+                continue          # one representative path per mode (the others differ in unrelated conditions)
+            for sel, val, st_ in sts:
+                syn = ast.Assign(targets=[ast.Subscript(value=ast.Name(id=var, ctx=ast.Load()), slice=sel, ctx=ast.Store())], value=val,
+                                 lineno=st_.lineno, col_offset=0)
+                syn._synthetic = True
+                tgt_list.append((syn, syn.targets[0], 'path'))
+        if synth_closed and synth_open:
+            closed, opened = synth_closed, synth_open
+            mode_param = 'right_continuous'
+        else:
+            o.fail('no range store is guarded by the right_continuous parameter')
+            return
     o.ok('guarded by `%s`' % mode_param)
 
     exk = Expander(P, f, keep={var})
@@ -415,6 +442,8 @@ def rule_range(ck):
     def analyse(stmt, tgt):
         if isinstance(stmt, ast.AugAssign):
             return None, None
+        if getattr(stmt, '_synthetic', False):
+            return _halflines(N.nf(strip_all_shape(tgt.slice)), idx_atom, N), N.nf(strip_all_shape(stmt.value))
         cond = N.nf(strip_all_shape(exk.expand(tgt.slice)))
         val = N.nf(strip_all_shape(exk.expand(stmt.value)))
         return _halflines(cond, idx_atom, N), val
@@ -506,6 +535,31 @@ def rule_range(ck):
                 else:
                     o.fail('the single-edge branch does not force open-ended mode with a positive spacing '
                            '(right_continuous=True: %s, positive h: %s)' % (sets_rc, hpos))
+    if o.status == 'violated' or not found:
+        # the same fact read along the paths: wherever the size test says "one edge", the flag ends up True and the spacing a positive
+        # constant - however many statements lie between the test and the two bindings
+        try:
+            pst = path_stores(f, var)
+        except Inconclusive:
+            pst = []
+        sizes = ('bins.size', 'len(bins)', 'bins.shape[0]')
+        single_paths = []
+        for conds, env, sts in pst:
+            for lit, pol in conds:
+                lit = lit.replace('numpy.asarray(bins)', 'bins').replace('numpy.array(bins)', 'bins')
+                try:
+                    t = N.nf(lit if pol else 'not (%s)' % lit)
+                except Exception:
+                    continue
+                if any(t == N.nf('%s == 1' % z) for z in sizes):
+                    single_paths.append(env)
+        if single_paths:
+            good = all(const_value(e_.get('right_continuous', ast.Name(id='right_continuous', ctx=ast.Load()))) is True and
+                       any(isinstance(const_value(e_.get(h_)), (int, float)) and const_value(e_.get(h_)) > 0 for h_ in spacing_names if h_ in e_)
+                       for e_ in single_paths)
+            if good:
+                o.status, o.detail = 'discharged', 'on every single-edge path right_continuous is True and the spacing a positive constant'
+                found = True
     if not found:
         o.fail('no branch handles a single-edge grid (bins[1] does not exist; open-ended mode must be forced)')
     o = ck.ob('C02-D3.neg', f, 'negative spacing raises ValueError', f.node)
